@@ -56,7 +56,8 @@ def calibration_agrees():
     on this interpreter (harness sanity).  Returns list of disagreements."""
     import gen
     bad = []
-    for k in gen.KINDS_ALL + ['setup_fail', 'body_cleanup_error', 'sysexit']:
+    for k in gen.KINDS_ALL + ['setup_fail', 'body_cleanup_error', 'sysexit',
+                               'cleanup_builtin_error']:
         ts = {'name': 'test_k', 'kind': k}
         if k == 'subtests':
             ts['subs'] = ['F', 'P', 'E', 'S']
